@@ -180,6 +180,9 @@ class CallMixin:
         return v
 
     def heap_write(self, st, ref, field, value, node=None):
+        fty0 = self.field_type(ref.ty.cls, field) if isinstance(ref, Val) and isinstance(ref.ty, TRef) else None
+        if fty0 is not None and isinstance(value, Val) and isinstance(value.ty, TOpt) and not isinstance(fty0, TOpt) and value.ty.inner == fty0:
+            value = self.narrow(st, value, fty0, node, "value-stored-in-.%s" % field)      # Opt(T) into a T field: must not be None here
         field = self.real_field(ref.ty.cls, field)
         owner, fty = self.field_owner(ref.ty.cls, field)
         if owner is None:
@@ -748,6 +751,10 @@ class CallMixin:
         elif name == "dict":
             if not args and "__starstar__" not in kwargs:
                 yield st, PyDict(kwargs)
+            elif not args and len(kwargs) == 1 and isinstance(kwargs.get("__starstar__"), Val) and isinstance(kwargs["__starstar__"].ty, (TRec, TMap)):
+                yield st, kwargs["__starstar__"]        # dict(**d): a copy; values are immutable in the model, so the copy is the same value
+            elif len(args) == 1 and not kwargs and isinstance(args[0], Val) and isinstance(args[0].ty, (TRec, TMap)):
+                yield st, args[0]                       # dict(d): likewise
             elif self.cur_ci is not None and self.cur_ci.decl.opts.get("opaque") is not None:
                 self.note_assumption("slice: dict(mapping, ...) yields an untracked dictionary")
                 yield st, fresh(TOpaque("Any"), "dictcopy")
